@@ -7,7 +7,7 @@ from ..faults import AppendOnlyGuardDB, InjectedFault
 from ..hexcommon import lookup_keys, simple_ops
 from ..hexrun import apply_simple, check_lookup
 from ..ref.mpt import BLANK_ROOT
-from ..util import Abort, Info, cm_enter, cm_exit, expect, expect_eq, impl
+from ..util import Abort, Info, abort_exception, cm_enter, cm_exit, expect, expect_eq, impl
 
 ID = "C04"
 LEVEL = "fault_enumeration"
@@ -110,7 +110,7 @@ def exec_step(w, step, ledger_roots, ledger, faulty):
         if end == len(inner):
             aborted = True
         if aborted:
-            cm_exit("squash_changes-exit", cm, Abort("injected"))
+            cm_exit("squash_changes-exit", cm, abort_exception(end))
             facts["delete"] = False
         else:
             status, _ = cm_exit("squash_changes-exit", cm, allowed=allowed)
